@@ -161,6 +161,78 @@ def WithGroundChain(rng, e_first=None, g_first=None):
       'fam_main_%s_first' % ('G' if g_first else 'W')]
 
 
+def InlineSubqueryInCombine(rng):
+  """A join predicate with internal variables read inside an aggregating
+  expression and a negation of a rule that has variables of its own: compiled
+  as an inline subquery (@NoInject + @NoWith) its variables must stay apart
+  from the reader's."""
+  x, y, z = Var('x'), Var('y'), Var('z')
+  E = Facts('E', [(1, 2), (2, 3), (3, 4), (2, 5), (5, 1)] + RandRows(rng, 2, n=1, lo=1, hi=5))
+  T = Facts('T', [(i,) for i in (1, 2, 3, 5)])
+  Hop = Pred('Hop', [Rule([('col0', x, ''), ('col1', y, '')],
+                          [Atom('E', [('col0', x), ('col1', z)]),
+                           Atom('E', [('col0', z), ('col1', y)])])])
+  SumR = Pred('SumR', [Rule([('col0', x, ''), ('col1', Var('s'), '')],
+      [Atom('T', [('col0', x)]),
+       Unify(Var('s'), AggE('Sum', y, [Atom('Hop', [('col0', x), ('col1', y)])]))])])
+  No4 = Pred('No4', [Rule([('col0', x, '')],
+      [Atom('T', [('col0', x)]),
+       Neg([Atom('Hop', [('col0', x), ('col1', Lit(N_(4)))])])])])
+  Both = Pred('Both', [Rule([('col0', x, ''), ('col1', z, ''), ('logica_value', y, 'Max')],
+      [Atom('E', [('col0', x), ('col1', z)]),
+       Unify(y, AggE('Count', Var('w'), [Atom('Hop', [('col0', z), ('col1', Var('w'))]),
+                                        Neg([Atom('Hop', [('col0', Var('w')), ('col1', x)])])]))],
+      True)])
+  return (Prog([E, T, Hop, SumR, No4, Both]), ['Hop', 'SumR', 'No4', 'Both'],
+          ['fam_inline_subquery_in_combine'])
+
+
+def ArglessInjectTwice(rng):
+  """An argument-less injectible predicate with several rows (a function of
+  no arguments with several values) called twice in one rule: every call is
+  its own conjunct, so the pairs are the square."""
+  a, b, x = Var('a'), Var('b'), Var('x')
+  V = Facts('V', RandRows(rng, 1, n=3, lo=1, hi=7))
+  W = Facts('W', [(1, 10), (2, 20), (7, 70), (3, 30)])
+  Pick = Pred('Pick', [Rule([('logica_value', x, '')], [Atom('V', [('col0', x)])])])
+  Any = Pred('Any', [Rule([], [Atom('V', [('col0', x)]), Cmp(Op('>', x, Lit(N_(1))))])])
+  Pairs = Pred('Pairs', [Rule([('col0', a, ''), ('col1', b, '')],
+      [Unify(a, PCall('Pick', [])), Unify(b, PCall('Pick', []))])])
+  Offers = Pred('Offers', [Rule([('col0', a, ''), ('col1', Var('p'), ''), ('col2', b, '')],
+      [Unify(a, PCall('Pick', [])), Atom('W', [('col0', a), ('col1', Var('p'))]),
+       Unify(b, PCall('Pick', [])), Cmp(Op('<=', a, b))])])
+  Cnt = Pred('Cnt', [Rule([('logica_value', Op('+', PCall('Pick', []), PCall('Pick', [])), 'Sum')],
+                          [Atom('Any', []), Atom('Any', [])], True)])
+  return (Prog([V, W, Pick, Any, Pairs, Offers, Cnt]), ['Pairs', 'Offers', 'Cnt'],
+          ['fam_argless_inject_twice'])
+
+
+def NestedAggHelper(rng):
+  """An injectible-only aggregate helper (a function given by an aggregating
+  expression over its parameter) nested in itself and called through another
+  injectible predicate: the local variables of every instance stay apart."""
+  x, y, t = Var('x'), Var('y'), Var('t')
+  U = Facts('U', [(1, 2), (1, 4), (2, 1), (2, 3), (6, 5), (4, 1)] +
+            RandRows(rng, 2, n=1, lo=1, hi=6))
+  V = Facts('V', [(1,), (2,), (5,)])
+  Tot = Pred('Tot', [Rule([('col0', x, ''),
+                           ('logica_value', AggE('Sum', y, [Atom('U', [('col0', x), ('col1', y)])]), '')],
+                          [])], inline=True)
+  Inner = Pred('Inner', [Rule([('col0', x, ''), ('logica_value', PCall('Tot', [('col0', x)]), '')],
+                              [Atom('V', [('col0', x)])])])
+  R = Pred('R', [Rule([('col0', x, ''), ('col1', t, '')],
+      [Atom('V', [('col0', x)]),
+       Unify(t, PCall('Tot', [('col0', PCall('Inner', [('col0', x)]))]))])])
+  Twice = Pred('Twice', [Rule([('col0', x, ''), ('col1', t, '')],
+      [Atom('V', [('col0', x)]),
+       Unify(t, PCall('Tot', [('col0', PCall('Tot', [('col0', x)]))]))])])
+  Once = Pred('Once', [Rule([('col0', x, ''), ('col1', t, ''), ('col2', Var('s'), '')],
+      [Atom('V', [('col0', x)]), Unify(t, PCall('Tot', [('col0', x)])),
+       Unify(Var('s'), PCall('Tot', [('col0', Op('+', x, Lit(N_(1))))]))])])
+  return (Prog([U, V, Tot, Inner, R, Twice, Once]), ['Inner', 'R', 'Twice', 'Once'],
+          ['fam_nested_agg_helper'])
+
+
 C08_FAMILIES = [
     ('inject_combine_shared', lambda r: InjectCombine(r, True)),
     ('inject_combine_shared_max', lambda r: InjectCombine(r, True, 'Max')),
@@ -172,6 +244,9 @@ C08_FAMILIES = [
     ('with_ground_chain_e_w', lambda r: WithGroundChain(r, True, False)),
     ('with_ground_chain_w_g', lambda r: WithGroundChain(r, False, True)),
     ('with_ground_chain_w_w', lambda r: WithGroundChain(r, False, False)),
+    ('inline_subquery_in_combine', InlineSubqueryInCombine),
+    ('argless_inject_twice', ArglessInjectTwice),
+    ('nested_agg_helper', NestedAggHelper),
 ]
 
 
